@@ -154,6 +154,66 @@ pub fn run(a: &Args) {
                         "bytes": hex_full(&bytes[..bytes.len().min(3000)])}));
                     evals += 1;
                 }
+                "C20" => {
+                    let msg = conc_msg(&case["want"], &mut r, &dm);
+                    let m2 = msg.clone();
+                    let res = catch_unwind(AssertUnwindSafe(move || {
+                        let mut req = m2.to_ipp();
+                        *req.payload_mut() = IppPayload::new(Cursor::new(b"payload that must not be serialised".to_vec()));
+                        let mut evs: Vec<(J, J)> = vec![];
+                        // whole message
+                        let text = serde_json::to_string(&req).map_err(|e| e.to_string());
+                        let original = msg_json(&req);
+                        match text.and_then(|t| serde_json::from_str::<IppRequestResponse>(&t).map_err(|e| e.to_string()).map(|b| (t, b))) {
+                            Ok((t, back)) => {
+                                let bj = msg_json(&back);
+                                let mut rest = vec![];
+                                let _ = back.into_payload().read_to_end(&mut rest);
+                                evs.push((json!({"what": "msg", "ok": true, "msg": original, "back": bj, "paylen": rest.len(),
+                                    "leak": t.contains("payload that must not")}), json!({"json": t.chars().take(2000).collect::<String>()})));
+                            }
+                            Err(e) => evs.push((json!({"what": "msg", "ok": false, "msg": original, "back": {}, "paylen": 0, "error": e}), json!({}))),
+                        }
+                        // attributes alone
+                        let at = serde_json::to_string(req.attributes()).map_err(|e| e.to_string());
+                        match at.and_then(|t| serde_json::from_str::<IppAttributes>(&t).map_err(|e| e.to_string())) {
+                            Ok(back) => evs.push((json!({"what": "attrs", "ok": true, "msg": {"groups": groups_json(req.attributes())},
+                                "back": {"groups": groups_json(&back)}}), json!({}))),
+                            Err(e) => evs.push((json!({"what": "attrs", "ok": false, "msg": {}, "back": {}, "error": e}), json!({}))),
+                        }
+                        // every value alone
+                        for g in req.attributes().groups() {
+                            for a in g.attributes().values() {
+                                let vt = serde_json::to_string(a.value()).map_err(|e| e.to_string());
+                                match vt.and_then(|t| serde_json::from_str::<IppValue>(&t).map_err(|e| e.to_string())) {
+                                    Ok(back) => evs.push((json!({"what": "value", "ok": true, "msg": ipp_json(a.value()), "back": ipp_json(&back)}), json!({}))),
+                                    Err(e) => evs.push((json!({"what": "value", "ok": false, "msg": ipp_json(a.value()), "back": {}, "error": e}), json!({}))),
+                                }
+                            }
+                        }
+                        evs
+                    }));
+                    match res {
+                        Ok(evs) => {
+                            for (mut ev, side) in evs {
+                                ev["ev"] = json!("serde");
+                                ev["case"] = json!(cid);
+                                if samples.len() < 3 {
+                                    samples.push(json!({"case": cid, "what": ev["what"], "json": side["json"]}));
+                                }
+                                distinct.insert(fnv64(serde_json::to_string(&ev["msg"]).unwrap().as_bytes()));
+                                sink.emit(&ev, &json!({"case": cid, "abstract": case["want"], "msg": format!("{:?}", msg).chars().take(3000).collect::<String>(), "json": side["json"]}));
+                                evals += 1;
+                            }
+                        }
+                        Err(p) => {
+                            let ev = json!({"ev": "serde", "case": cid, "what": "msg", "ok": false, "msg": msg.json(), "back": {}, "paylen": 0,
+                                "error": format!("PANIC {}", panic_text(p))});
+                            sink.emit(&ev, &json!({"case": cid, "abstract": case["want"]}));
+                            evals += 1;
+                        }
+                    }
+                }
                 "C03" => {
                     let msg = conc_msg(&case["want"], &mut r, &dm);
                     let mut seen = std::collections::HashSet::new();
